@@ -91,6 +91,9 @@ func zzDispatch(name string, args []string) {
 		zzC16IOBits()
 	case "zzC16MaxWord":
 		zzC16MaxWord(args[0])
+	case "zzC16Fact":
+		v, _ := strconv.Atoi(args[1])
+		zzC16Fact(args[0], v)
 	case "zzC16Emitted":
 		a := func(i int) int { v, _ := strconv.Atoi(args[i]); return v }
 		zzC16Emitted(a(0), a(1), a(2), a(3), a(4), a(5), a(6), args[7], args[8], a(9), args[10])
@@ -101,6 +104,12 @@ func zzDispatch(name string, args []string) {
 // and ANY register/input/flag state never indexes outside the ROM, the register
 // file, the ports or the opcode list, and never leaves pc beyond the end of the
 // ROM. The machine description comes from the real front-end (run natively).
+// zzC16Fact: a fact the driver read off the machine the front-end emitted
+func zzC16Fact(tag string, ok int) {
+	zzAssert(tag, ok == 1)
+	zzReach("end")
+}
+
 func zzC16Emitted(rsize, r, n, mm, l, o, wordsize int, ops string, rom string, ndata int, mode string) {
 	m := zzMachine(rsize, r, n, mm, l, o, ops)
 	m.WordSize = uint8(wordsize)
@@ -124,8 +133,9 @@ func zzC16Emitted(rsize, r, n, mm, l, o, wordsize int, ops string, rom string, n
 		id, _ := m.Conproc.Decode_opcode(w)
 		zzAssert("rom-word-decodes-to-an-opcode-of-the-processor", id < len(m.Op))
 	}
-	if mode != "ha" || ndata > 0 {
-		// von Neumann / hybrid fetch and ROM data operands are not stepped: structural facts only
+	if mode != "ha" || ndata > 0 || (rsize != 8 && rsize != 16 && rsize != 32 && rsize != 64) {
+		// von Neumann / hybrid fetch, ROM data operands and register sizes the simulator does not implement
+		// (it has arms for 8, 16, 32 and 64 bits) are not stepped: structural facts only
 		zzReach("end")
 		return
 	}
